@@ -249,6 +249,36 @@ def grown_elsewhere(res, tier, cfgs, seen):
                         histcheck.report(res, c, ops, findings, "io", shrink_budget=10, seen=seen)
 
 
+def reread_after_write(res, tier, cfgs, seen):
+    """read inside cluster k, then a write that starts on an earlier cluster boundary and runs through k, then read
+    (and write unaligned) inside k again: what was read before must not come back (any caching of cluster contents
+    has to see the write)"""
+    for ci, cfg0 in enumerate(cfgs[:2] + cfgs[5:6] if tier == "quick" else cfgs):
+        cfg = dict(cfg0, seed=7100 + ci, fill_free=True)
+        bpc = specfat.Geom(**cfg["geom"]).bpc if cfg["fmt"] == "spec" else (512 if cfg["type"] != 16 else 1024)
+        if bpc > 8192:
+            continue
+        for nclus in (2, 3, 4):
+            for k in range(1, nclus):
+                for j in range(0, k):
+                    for d in ((3,) if tier == "quick" else (0, 3, bpc - 1)):
+                        size = nclus * bpc - 5
+                        wlen = (k - j) * bpc + 7
+                        ops = [["writebytes", "/F0.BIN", 1, size], ["open", "h1", "/F0.BIN", "r+"],
+                               ["seek", "h1", k * bpc + d, 0], ["read", "h1", 9],
+                               ["seek", "h1", j * bpc, 0], ["write", "h1", 2, wlen],
+                               ["seek", "h1", k * bpc + d, 0], ["read", "h1", 9],
+                               ["seek", "h1", k * bpc + 1, 0], ["write", "h1", 3, 2],
+                               ["seek", "h1", 0, 0], ["read", "h1", -1], ["close", "h1"], ["readbytes", "/F0.BIN"]]
+                        c = dict(cfg)
+                        c["_paths"] = ["/F0.BIN"]
+                        findings, stats = histcheck.check_history(c, ops, remount_every=0, io_frame=True)
+                        res.case("reread-after-write:cfg%d:n%d:k%d:j%d" % (ci, nclus, k, j))
+                        res.count("programs:reread-after-write")
+                        if findings:
+                            histcheck.report(res, c, ops, findings, "io", shrink_budget=10, seen=seen)
+
+
 def run(tier):
     res = Result("io")
     cursor_correspondence(res, tier)
@@ -258,6 +288,7 @@ def run(tier):
     cfgs = configs(tier)
     seen = {}
     grown_elsewhere(res, tier, cfgs, seen)
+    reread_after_write(res, tier, cfgs, seen)
     for i in range(nprog):
         cfg = dict(cfgs[i % len(cfgs)])
         cfg["seed"] = i
